@@ -22,9 +22,10 @@ func init() {
 			{Name: "m1/preemption-bounded-programs", Count: core.FixedCount(len(conc.MediumPrograms), len(conc.MediumPrograms)), Run: func(c *core.Ctx, idx int) { conc.RunM1Bounded(c, idx, "C05") }, CPULimit: 1800},
 			{Name: "m2/real-scheduler-termination", Count: core.FixedCount(200, 4000), Run: conc.RunC05M2, CPULimit: 300, MaxWorkers: 4},
 			{Name: "constructors/m1", Count: core.FixedCount(65*6, 65*6), Run: conc.RunC05Constructor, Exhaustive: true, CPULimit: 60},
+			{Name: "constructors/busy-source", Pool: "free", Count: core.FixedCount(40, 400), Run: conc.RunC05BusySource, CPULimit: 60},
 			{Name: "constructors/parsed-literal", Pool: "free", Count: core.FixedCount(65, 65), Run: func(c *core.Ctx, idx int) { conc.RunC05ParsedLiteral(c, idx) }, Exhaustive: true, CPULimit: 60},
 		},
-		Repro: map[string]func() (bool, string){"c05.removeall": conc.ReproRemoveAll, "c05.constructor": conc.ReproQueueConstructor},
+		Repro: map[string]func() (bool, string){"c05.removeall": conc.ReproRemoveAll, "c05.constructor": conc.ReproQueueConstructor, "c05.busy-source": conc.ReproBusySource},
 	})
 	core.Register(&core.Property{
 		ID:    "C06",
